@@ -10,6 +10,7 @@ from __future__ import annotations
 
 import base64
 import hashlib
+import json
 import hmac
 
 from Crypto.Cipher import AES
@@ -58,6 +59,33 @@ def pair_fields(pair: dict, data_key: bytes, data_cipher: str) -> dict:
     return seal(derive(pair), bytes.fromhex(pair["iv"]), crypto_dict.encode(), pair["mac"])
 
 
+_CHANCE = {}
+
+
+def chance_padded(pair: dict, key: bytes, data_cipher: str, phrase: str) -> dict:
+    ck = (json.dumps(pair, sort_keys=True), key, data_cipher, phrase)
+    if ck not in _CHANCE:
+        if len(_CHANCE) > 64:
+            _CHANCE.clear()
+        _CHANCE[ck] = _chance_padded(pair, key, data_cipher, phrase)
+    return _CHANCE[ck]
+
+
+def _chance_padded(pair: dict, key: bytes, data_cipher: str, phrase: str) -> dict:
+    """A copy of a decoy `pair` with a salt chosen such that decrypting it with the key derived from `phrase` (the passphrase of
+    another pair) yields bytes that happen to end in valid PKCS#7 padding (1 in 256 salts): only the MAC tells it is not the pair."""
+    base = bytes.fromhex(pair["salt"])
+    for c in range(1 << 14):
+        cand = dict(pair, salt=(base[:-2] + c.to_bytes(2, "big")).hex())
+        f = pair_fields(cand, key, data_cipher)
+        k = hashlib.pbkdf2_hmac(KDFS[cand["kdf"]], phrase.encode(), bytes.fromhex(cand["salt"]), cand["rounds"], KEY_SIZES[cand["cipher"]])
+        pt = AES.new(k, AES.MODE_CBC, iv=f["iv"]).decrypt(f["ct"])
+        n = pt[-1]
+        if 1 <= n <= 16 and pt[-n:] == bytes([n]) * n:
+            return cand
+    return pair
+
+
 def pair_text(pair: dict, fields: dict, salt: bytes | None = None) -> str:
     salt = bytes.fromhex(pair["salt"]) if salt is None else salt
     qi = q_min if pair.get("inner_quote", "min") == "min" else q
@@ -88,6 +116,8 @@ def build(spec: dict, tamper=None):
     lengths = {"data:iv": len(data_fields["iv"]), "data:ct": len(data_fields["ct"]), "data:mac": len(data_fields["mac"])}
     for i, p in enumerate(spec["pairs"]):
         key = data_key if i == spec["correct"] else hashlib.sha256(b"decoy" + bytes([i])).digest()[: len(data_key)]
+        if spec.get("chance_padding") and i < spec["correct"]:
+            p = chance_padded(p, key, spec["data_cipher"], correct["passphrase"])
         f = pair_fields(p, key, spec["data_cipher"])
         salt = bytes.fromhex(p["salt"])
         if i == spec["correct"]:
